@@ -18,7 +18,9 @@ RULE = ("a real fbserver.Server per configuration (child process of the harness;
         "most messages sent over both transports; odd stream (1 in 5): no question, two/three questions, QR set, opcodes "
         "NOTIFY/UPDATE/STATUS/IQUERY, records in the request's answer/authority/additional sections, two OPT records, "
         "all header flags set; fixed part of every run: ANY questions in classes CH, HS, NONE and ANY for names present in the "
-        "database on every refuse-any configuration over both transports (40 cases); the same wire message is given in-process to a bare FBDNSDB over the same database with the "
+        "database on every refuse-any configuration over both transports (40 cases), and client-subnet options (v4 /24, v6 /56, "
+        "v6 /128) x advertised sizes 512/600/1232 and U-1/U-9 (U = uncompressed length of the full reply) x the 12-MX, 14-NS "
+        "delegation/referral and TXT-set names over UDP, one per combination also over TCP (~75 cases); the same wire message is given in-process to a bare FBDNSDB over the same database with the "
         "listener's max answer; sections are compared as multisets of (lower-cased owner, type, class, ttl, rdata), the "
         "question section, header bits, id and wire length exactly; "
         "opt-in (environment C20_CACHE_CONFIGS=1, not part of the default run): two configurations with the response cache "
